@@ -117,6 +117,63 @@ func checkC13(w *Worker) {
 		want = append(want, csvWant{"2019-12-31", n2, exactDec("3")}, csvWant{"2021-01-24", n1, exactDec("1")})
 		verify(x, appCase{Args: []string{"csv", "log"}, Files: map[string]string{"food.yaml": "", "log.yaml": sb.String()}}, want, 3, "log")
 	})
+	// exports that cross the 4096-byte output buffer and the scanner's input buffer many times
+	w.Explore("large-exports", ExploreOpts{ShardDepth: 2}, func(x *Exec) {
+		which := x.Choose(3, "input:export")
+		n := []int{200, 1500}[x.Choose(2, "input:rows")]
+		var sb strings.Builder
+		var want []csvWant
+		dec := 3
+		var c appCase
+		switch which {
+		case 0:
+			for d := 0; d < n; d++ {
+				date := fmt.Sprintf("20%02d/%02d/%02d", 21+d/336, 1+(d/28)%12, 1+d%28)
+				nm := c13Names[d%len(c13Names)] + fmt.Sprint(" ", d)
+				sb.WriteString(date + ":\n  " + nm + ": " + fmt.Sprint(d) + ".125\n")
+				want = append(want, csvWant{strings.ReplaceAll(date, "/", "-"), nm, exactDec(fmt.Sprint(d) + ".125")})
+			}
+			c = appCase{Args: []string{"csv", "log"}, Files: map[string]string{"food.yaml": "", "log.yaml": sb.String()}}
+		default:
+			dec = 2
+			for d := 0; d < n; d++ {
+				nm := fmt.Sprintf("%06d %s", d, c13Names[d%len(c13Names)])
+				sb.WriteString(nm + ":\n  zeta: " + fmt.Sprint(d) + ".5\n  alpha: -1\n")
+				if which == 1 {
+					want = append(want, csvWant{nm, "zeta", exactDec(fmt.Sprint(d) + ".5")}, csvWant{nm, "alpha", exactDec("-1")})
+				} else {
+					want = append(want, csvWant{nm, "alpha", exactDec("-1")}, csvWant{nm, "zeta", exactDec(fmt.Sprint(d) + ".5")})
+				}
+			}
+			cmd := "database"
+			if which == 2 {
+				cmd = "database-resolved"
+			}
+			c = appCase{Args: []string{"csv", cmd}, Files: map[string]string{"food.yaml": sb.String()}}
+		}
+		x.Case(fmt.Sprint("large", which, n), true)
+		verify(x, c, want, dec, []string{"log", "database", "database-resolved"}[which])
+	})
+	w.Explore("csv-log-wide-days", ExploreOpts{ShardDepth: 2}, func(x *Exec) {
+		D := []int{8, 9, 10, 16, 17, 33}[x.Choose(6, "input:distinct-foods")]
+		rep := []int{0, 3, 7, 8}[x.Choose(4, "input:repeated-food")]
+		var sb strings.Builder
+		sb.WriteString("2021/01/24:\n")
+		want := []csvWant{}
+		for j := 0; j < D; j++ {
+			nm := fmt.Sprintf("%s %d", c13Names[j%len(c13Names)], j)
+			sb.WriteString(fmt.Sprintf("  %s: %d\n", nm, j+1))
+			want = append(want, csvWant{"2021-01-24", nm, exactDec(fmt.Sprint(j + 1))})
+		}
+		if rep < D {
+			sb.WriteString(fmt.Sprintf("  %s: 0.5\n", want[rep].B))
+			want[rep].Truth = new(big.Rat).Add(want[rep].Truth, exactDec("0.5"))
+		}
+		sb.WriteString(fmt.Sprintf("  %s: 0.25\n", want[0].B))
+		want[0].Truth = new(big.Rat).Add(want[0].Truth, exactDec("0.25"))
+		x.Case(fmt.Sprint("wide", D, rep), true)
+		verify(x, appCase{Args: []string{"csv", "log"}, Files: map[string]string{"food.yaml": "", "log.yaml": sb.String()}}, want, 3, "log")
+	})
 	w.Explore("csv-database", ExploreOpts{ShardDepth: 2}, func(x *Exec) {
 		n1 := c13Names[x.Choose(len(c13Names), "input:recipe")]
 		n2 := c13Names[x.Choose(len(c13Names), "input:element")]
